@@ -54,6 +54,24 @@ type vXClient struct {
 	dieAfter  atomic.Int64 // > 0: the incarnation dies right after this many more storage calls
 	failPuts  atomic.Bool  // extension: pure enqueue batches fail like ENOSPC (no effect) — refused offers create no obligation
 	putFailed atomic.Int64
+	// onComplete is called (with mu held) for every item that a completion / clean-up batch removes from storage
+	// (a Delete of an item key in a batch that does not write a new copy, i.e. not a recovery move)
+	onComplete func(ids []int)
+}
+
+func vXIDsIn(v []byte) []int {
+	var out []int
+	rest := v
+	for {
+		i := bytes.Index(rest, []byte(vXMarker))
+		if i < 0 || len(rest) < i+len(vXMarker)+6 {
+			return out
+		}
+		if n, err := strconv.Atoi(string(rest[i+len(vXMarker) : i+len(vXMarker)+6])); err == nil {
+			out = append(out, n)
+		}
+		rest = rest[i+len(vXMarker):]
+	}
 }
 
 func (c *vXClient) Get(ctx context.Context, key string) ([]byte, error) {
@@ -86,6 +104,17 @@ func (c *vXClient) Batch(_ context.Context, ops ...*storage.Operation) error {
 		if setsWI && !deletes {
 			c.putFailed.Add(1)
 			return errors.New("verif: no space left on device")
+		}
+	}
+	moves := false
+	for _, op := range ops {
+		moves = moves || (op.Type == storage.Set && op.Key == "wi")
+	}
+	for _, op := range ops {
+		if op.Type == storage.Delete && !moves && c.onComplete != nil {
+			if v, ok := c.st[op.Key]; ok && op.Key != "ri" && op.Key != "wi" && op.Key != "di" && op.Key != "si" {
+				c.onComplete(vXIDsIn(v))
+			}
 		}
 	}
 	for _, op := range ops {
@@ -289,7 +318,7 @@ func (s vXShape) options(storageID component.ID) ([]exporterhelper.Option, bool)
 		rc := configretry.NewDefaultBackOffConfig()
 		rc.InitialInterval = 2 * time.Millisecond
 		rc.MaxInterval = 4 * time.Millisecond
-		rc.MaxElapsedTime = 15 * time.Millisecond
+		rc.MaxElapsedTime = time.Second
 		opts = append(opts, exporterhelper.WithRetry(rc))
 	}
 	switch s.option {
@@ -367,7 +396,7 @@ func TestVerifC01Exporter(t *testing.T) {
 		var stMu sync.Mutex
 		st := map[string][]byte{}
 		var mu sync.Mutex // guards the maps below and the event lines of concurrent exports
-		accepted, handed, returned := map[int]bool{}, map[int]bool{}, map[int]bool{}
+		accepted, handed, returned, deleted := map[int]bool{}, map[int]bool{}, map[int]bool{}, map[int]bool{}
 		refusals := map[string]int{}
 		var incs []*vXIncarnation
 		nextID := 1
@@ -381,6 +410,19 @@ func TestVerifC01Exporter(t *testing.T) {
 
 		start := func(mode string) *vXIncarnation {
 			inc := &vXIncarnation{cl: &vXClient{mu: &stMu, st: st}, release: make(chan struct{}), mode: mode}
+			// the request leaves storage: some hand-off of it must have RETURNED with a final outcome before
+			// (observed at the storage client, i.e. from what the queue does with the outcome passed to OnDone)
+			inc.cl.onComplete = func(ids []int) {
+				mu.Lock()
+				defer mu.Unlock()
+				for _, id := range ids {
+					deleted[id] = true
+					if !returned[id] {
+						viol("C01/exporter/deleted-without-final-handoff/"+shape.String(), fmt.Sprintf("id=%d handed=%d mode=%s", id, vB(handed[id]), inc.mode))
+					}
+				}
+			}
+			attempts := map[int]int{}
 			set := exportertest.NewNopSettings(exportertest.NopType)
 			set.ID = component.MustNewIDWithName("verif_exporter", "c01")
 			exp, err := vXNewExporter(shape.signal, set, opts, func(ids []int) error {
@@ -413,8 +455,26 @@ func TestVerifC01Exporter(t *testing.T) {
 					done()
 					return consumererror.NewPermanent(errors.New("rejected"))
 				case "retryable":
-					done() // without retry this is final; with retry it may come again: either way a hand-off has returned
-					return errors.New("try again")
+					if !shape.retry {
+						done() // no retry sender: a retryable error is the final outcome
+						return errors.New("try again")
+					}
+					// with the retry sender the first attempts fail and are NOT final: the request must stay stored during
+					// the back-off; a later attempt succeeds (the budget of the retry sender is never exhausted)
+					mu.Lock()
+					n := 0
+					for _, id := range ids {
+						attempts[id]++
+						if attempts[id] > n {
+							n = attempts[id]
+						}
+					}
+					mu.Unlock()
+					if n <= 2 {
+						return errors.New("try again")
+					}
+					done()
+					return nil
 				}
 				<-inc.release
 				return errors.New("connection lost")
@@ -491,7 +551,7 @@ func TestVerifC01Exporter(t *testing.T) {
 			switch rnd.IntN(4) {
 			case 0:
 				how = "after-call"
-				inc.cl.dieAfter.Store(int64(1 + rnd.IntN(10)))
+				inc.cl.dieAfter.Store(int64(1 + rnd.IntN(40)))
 			case 1:
 				if rnd.IntN(2) == 0 {
 					how = "abandoned-enospc"
@@ -550,6 +610,7 @@ func TestVerifC01Exporter(t *testing.T) {
 		out.Linef("stat option_%s 1", strings.ReplaceAll(shape.option, "+", "_"))
 		out.Linef("stat shape_%s_%s 1", shape.signal, strings.ReplaceAll(shape.option, "+", "_"))
 		out.Linef("stat accepted %d", nAcc)
+		out.Linef("stat completion_deletes_checked %d", len(deleted))
 		out.Linef("stat deaths %d", deaths)
 		out.Linef("stat block_on_overflow %d", vB(shape.block))
 		out.Linef("stat retry %d", vB(shape.retry))
